@@ -923,6 +923,18 @@ def r13_3(ctx: Ctx):
                     isinstance(b_, ast.Assign) and isinstance(b_.targets[0], ast.Subscript) and isinstance(b_.targets[0].value, ast.Name)
                     and b_.targets[0].value.id == seq and const_int(b_.targets[0].slice) == slot for b_ in (st.body[0], st.orelse[0])):
                 expr, site = ast.copy_location(ast.IfExp(st.test, st.body[0].value, st.orelse[0].value), st), st
+        if expr is None:
+            # the sequence built as a list literal whose leading elements are the (wrapped) numbers themselves
+            from ..pat import expand_single_defs as _xsd133
+            for st in walk_no_nested(f.node):
+                if isinstance(st, ast.Assign) and len(st.targets) == 1 and isinstance(st.targets[0], ast.Name) and st.targets[0].id == seq \
+                        and isinstance(st.value, (ast.List, ast.Tuple)) and slot < len(st.value.elts) \
+                        and not any(isinstance(e_, ast.Starred) for e_ in st.value.elts[:slot + 1]):
+                    el_ = st.value.elts[slot]
+                    ex_ = _xsd133(f.node, el_)
+                    # only when the element really is computed (not the raw input element): a raw `inp[slot]` stays "unwrapped"
+                    if norm(ex_) != "%s[%d]" % (inp, slot):
+                        expr, site = ex_, st
         n += 1
         if expr is None:
             ctx.ob("R13.3", f, "slot %d of %s is formatted unwrapped" % (slot, seq), False,
